@@ -17,6 +17,9 @@ CLAIMED = {
  "C05": ("model_checking", HIST + " GC runs only through the verif hook at model-chosen points (also between the uploads and the manifest of one image), blob ages are set with a hook; all 16 combinations of Untagged/ReferrersDangling/ReferrersWithSubj/GracePeriod. Clause gc.safe: the observed state after a collection contains MustBlobs/MustAddr of the declarative policy (spec/Registry.tla), adds nothing, keeps tags and media types.", "6 C05"),
  "C06": ("model_checking", HIST + " Clauses gc.exact (once nothing is young the observed state is inside MayBlobs/MayMan: exactly the garbage is gone), gc.idem (a second collection changes nothing), and store wide passes (GCPass) over healthy repositories next to corrupt / phantom / removed ones, repeated so that Go's random map order covers the visiting orders.", "6 C06"),
  "C07": ("model_checking", HIST + " Clauses: for every catalogue subject, unfiltered and per artifactType, cold and cache-warm, the listed digests equal the derived Referrers set, each once, with exact descriptor fields; filter announced.", "6 C07"),
+ "C10": ("model_checking", HIST + " On the directory store the repository directory is scanned after every request (oci-layout, parsed index.json, every file under blobs/ re-hashed, _uploads, stray files) and the clauses disk.layout / disk.index / disk.files compare it with the model state; histories restart the server and collect at model-chosen points (nested repository names, sha256/384/512); mem, dir and mem-over-dir are validated against the same deterministic model.", "6 C10"),
+ "C14": ("model_checking", HIST + " Histories populate a directory, then reconfigure the server (Reconf: read-only dir, memory over the directory, push/delete/blob-delete switched off) and send every request class, collections, passes and restarts; a digest over names, modes, sizes, contents and mtimes of the whole root tree must not change while the store is read-only or a memory store (ro.frozen); requests of a switched-off class are 4xx and leave the full observation unchanged (ro.refused). Also pre-existing foreign directories (testdata/testrepo with fallback-tag referrers to convert, testdata/corrupt).", "6 C14"),
+ "C16": ("model_checking", HIST + " Three repositories with nested / prefix names are observed completely after every request (any leak fails the sync clauses of another repository), sessions are used against other repositories, mounts name present / absent / unknown sources and sources outside the grammar (../victim); the root lives in a sandbox next to sentinel layouts holding the catalogue blobs and a digest of everything outside the root must never change (confined).", "6 C16"),
  "C18": ("model_checking", "spec/IndexImpl.tla transcribes AddDesc/RmDesc/AddChildren/GetDesc/GetByAnnotation statement by statement; TLC checks all C18 invariants and action properties on the closure (every operation sequence of any length) of small universes; behaviours of the model (tlc -simulate of spec/MCIndex.tla, with the predicted list after each step) and Go-generated random sequences are applied to the real types.Index; the projection through the public methods after every step, including an earlier Copy, is validated by TLC against the abstract index model spec/TraceIndex.tla (verdict); list differences to IndexImpl are reported as DRIFT.", "6 C18"),
  "C08": ("model_checking", HIST + " Clauses: PATCH/PUT accepted iff offsets and state token are in order, status query exact, completion stores the concatenation, sessions exist exactly while the model says so (hook, no LRU refresh), per repository.", "6 C08"),
 }
